@@ -421,6 +421,12 @@ pub fn chain_truth_sized(
             match k.0.as_str() {
                 "d" | "c" => {
                     toks[gb] = token(k.1, gb as u32) as i64;
+                    if let Some(Some((g0, kb))) = t.as_ref().map(|t| t.tail_zero) {
+                        let off = (gb as u64) << top.bsb;
+                        if (off >> geom.cb) as usize == g0 && ((off & ((1u64 << geom.cb) - 1)) >> top.bsb) as usize >= kb {
+                            toks[gb] = 0;
+                        }
+                    }
                     if li == 0 {
                         kinds[g] = k.0.clone();
                     } else if kinds[g] == "u" {
